@@ -516,3 +516,28 @@ Proof.
 Qed.
 
 End Ruid.
+
+(* ------------------------------------------------------------------------------------------ *)
+(* transactions of several operations: a committed transaction is exactly the run of its operations,
+   every one of them committing; a failed one changes nothing. So the history theorems above, stated
+   over single operations, cover histories of multi-operation transactions (e.g. mint, burn and
+   re-mint of an id inside one transaction). *)
+Lemma tx_go_ok : forall ops m m' u, tx_go m ops = (m', ROk u) ->
+  m' = final m ops /\ forall e, In e (run m ops) -> is_ok (snd e) = true.
+Proof.
+  induction ops as [|o ops IH]; intros m m' u H; cbn in H.
+  - inversion H. subst. split; [reflexivity|intros e []].
+  - destruct (step m o) as [m1 r] eqn:E. destruct r as [x|e|]; try (inversion H; fail).
+    destruct (IH _ _ _ H) as [A B]. split.
+    + change (final m (o :: ops)) with (final (fst (step m o)) ops). rewrite E. exact A.
+    + change (run m (o :: ops)) with ((m, o, fst (step m o), snd (step m o)) :: run (fst (step m o)) ops).
+      rewrite E. intros e [<-|Hin]; [reflexivity|apply B; exact Hin].
+Qed.
+Theorem tx_step_spec : forall m ops,
+  (is_ok (snd (tx_step m ops)) = true ->
+     fst (tx_step m ops) = final m ops /\ forall e, In e (run m ops) -> is_ok (snd e) = true) /\
+  (is_ok (snd (tx_step m ops)) = false -> fst (tx_step m ops) = m).
+Proof.
+  intros m ops. unfold tx_step. destruct (tx_go m ops) as [m' r] eqn:E. destruct r as [u|e|]; cbn; split; intros H; try discriminate; try reflexivity.
+  apply (tx_go_ok _ _ _ _ E).
+Qed.
